@@ -373,6 +373,31 @@ def main():
                     chk.violation("subst:mock:" + bad.split(":")[0], "substitution %s: %s (operations: %s)" % (mreq, bad, impl[:200]),
                                   "subst_%s_%s.txt" % ("".join(kinds), "".join(str(x) for x in srcs)),
                                   "substitution (old context -> new := old): %s\nemitted abstract operations:\n%s\nfailure: %s\nAxCut program:\n%s\n" % (mreq, impl.replace("|", "\n"), bad, prog))
+        # --- substitutions of OBJECT variables on the three machine models (placement across the register / spill
+        #     boundary, null pointers, balanced drop/duplicate): moves AND reference counts as executed
+        import ladder
+        import stagecheck
+
+        lad = ladder.Ladder("C11")
+        for f in stagecheck.shape_programs(chk, only=("dsp", "bal", "dup")):
+            st = lad.stages(f)
+            if not st or "S5" not in st or st["S5"][0] != "OK":
+                continue
+            for args in ([3], [0]):
+                rungs = lad.run_rungs(st, args, rungs=[("S5", "pos")], asm=ladder.ASM, mon="heap")
+                pos = next((b for l, b, _ in rungs if l == "S5:pos"), None)
+                if not pos or not pos[1].startswith("done"):
+                    continue
+                chk.count(("machine-subst", os.path.basename(f), tuple(args)))
+                for l, b, raw in rungs:
+                    if not l.startswith("S7") or b is None or b[1] == "outOfFuel":
+                        continue
+                    if b != pos:
+                        chk.impl_oracle_failures.append({"file": f, "args": args, "machine": l, "got": b, "expected": pos})
+                        chk.violation("subst:machine:" + l.split(":")[1], "%s on %s args %s: %s, AxCut machine %s" % (l, os.path.basename(f), args, (raw or "")[:160], pos),
+                                      "substm_%s_%s.txt" % (l.split(":")[1], os.path.basename(f)), "file=%s\nargs=%s\nmachine=%s\nresult=%s\nexpected=%s\nsource:\n%s\n" % (f, args, l, raw, pos, open(f).read()))
+                        break
+        lad.close()
         chk.sample({"substitution": mreq, "ops": mod})
         chk.sample({"backend": cases[len(cases) // 2][0], "moves": spec_of(cases[len(cases) // 2][1])})
         chk.sample({"backend": cases[-1][0], "moves": spec_of(cases[-1][1])})
